@@ -232,7 +232,14 @@ func (w *World) drawFault(c *Call) string {
 	w.occ[key]++
 	occ := w.occ[key]
 	s := w.faultStream(c)
-	hit := s.Chance(w.cfg.FaultP)
+	fp := w.cfg.FaultP
+	if b, ok := w.prof.FaultBias[c.Op]; ok {
+		fp *= b
+		if fp > 0.5 {
+			fp = 0.5
+		}
+	}
+	hit := s.Chance(fp)
 	kindIdx := s.U32()
 	crash := s.Chance(w.cfg.CrashP)
 	crashAfter := s.U32()&1 == 1
